@@ -56,6 +56,11 @@ pub struct Scenario {
     /// (only HOME, with .config below it), "none" (neither variable)
     #[serde(default = "xdg_default")]
     pub envmode: String,
+    /// a configuration knob the tool was seen to read from the environment (a name outside the
+    /// usual ones, recorded by the seam) set to this value: outputs exactly right, or a visible
+    /// failure - judged like a benign fault
+    #[serde(default)]
+    pub knob: Option<(String, String)>,
     /// paths that are symbolic links on the disk: link (a key of `files`) -> where the bytes live
     #[serde(default)]
     pub symlinks: BTreeMap<String, String>,
@@ -429,6 +434,7 @@ pub fn execute(env: &Env, sc: &Scenario, budget: u64) -> Result<RunOut, String> 
         .env("LD_PRELOAD", &env.preload)
         .env("SIMLIBC_CONF", &confp)
         .env("RUST_BACKTRACE", "0")
+        .envs(sc.knob.iter().map(|(k, v)| (k.clone(), v.clone())))
         .stdin(Stdio::null())
         .stderr(Stdio::piped());
     match sc.stdout.as_str() {
@@ -709,6 +715,10 @@ fn judge_inner(sc0: &Scenario, out: &RunOut, reference: &Reference, root: &Path,
     let code_rel = rel_of(root, &code_abs);
     let eep_rel = rel_of(root, &eep_abs);
     let mut f = facts(sc, out, root, &code_abs, &eep_abs);
+    if sc.knob.is_some() {
+        f.benign_fired = true;
+        f.any = true;
+    }
     {
         // an output spelled "name/" or "name/." cannot be written, whatever the tool tries:
         // that is a fault of the command line on that output
@@ -956,6 +966,7 @@ pub fn scenario_shape(tier: &str, base_seed: u64, g: u64) -> Scenario {
         config: String::new(),
         flip: None,
         envmode: "xdg".into(),
+        knob: None,
         symlinks: BTreeMap::new(),
         config_files: BTreeMap::new(),
         stale_text: BTreeMap::new(),
@@ -1386,9 +1397,12 @@ struct Acc<'a> {
     stats: &'a mut Stats,
     emit: &'a mut dyn FnMut(Violation),
     found: usize,
+    /// names outside the usual ones the tool asked the environment for in the runs so far
+    knobs: BTreeSet<String>,
 }
 
 fn account(acc: &mut Acc, sc: &Scenario, out: &RunOut, reference: &Reference, root: &Path, seed: u64, g: u64, prof: Option<&[Event]>) {
+    acc.knobs.extend(out.trace.iter().filter(|e| e.call == Call::Getenv).map(|e| e.path.clone()));
     let stats = &mut *acc.stats;
     stats.runs += 1;
     stats.steps += out.trace.len() as u64;
@@ -1517,7 +1531,7 @@ pub fn worker(cfg: &WorkerCfg, emit: &mut dyn FnMut(Violation)) -> Stats {
     let start = now_secs();
     let total = cfg.digest_only.unwrap_or(cfg.total);
     let mut g = cfg.worker;
-    let mut acc = Acc { stats: &mut stats, emit, found: 0 };
+    let mut acc = Acc { stats: &mut stats, emit, found: 0, knobs: BTreeSet::new() };
     while g < total {
         if cfg.digest_only.is_none() && now_secs() - start > cfg.deadline_secs {
             acc.stats.count("stopped_by_deadline", 1);
@@ -1663,6 +1677,27 @@ pub fn worker(cfg: &WorkerCfg, emit: &mut dyn FnMut(Violation)) -> Stats {
                 dump.extend(out.after.iter().map(|(k, v)| format!("{} {:?}", k, v.as_ref().map(|b| fnv(b)))));
             }
             account(&mut acc, &sc, &out, &reference, &env.root, seed, g, None);
+        }
+        // configuration knobs the tool asked the environment for: the fault-free scenario once
+        // more with each knob set (nothing to do on a tree that reads none)
+        let knobs: Vec<String> = std::mem::take(&mut acc.knobs).into_iter().collect();
+        if sc.knob.is_none() && cfg.digest_only.is_none() {
+            for k in knobs {
+                const MENU: &[&str] = &["24", "3", "255", "7", "1", "0", "100", "256", "4096", "20", "true", "yes", "", "-1", "abc", "65536"];
+                let mut s2 = sc.clone();
+                s2.rules.retain(|r| r.kind == "full-device");
+                s2.fsize_limit = None;
+                s2.config = "free".into();
+                s2.knob = Some((k, MENU[r.usize(MENU.len())].to_string()));
+                match execute(&env, &s2, 4_000_000) {
+                    Ok(o2) => {
+                        acc.stats.fired("knob-set");
+                        account(&mut acc, &s2, &o2, &reference, &env.root, seed, g, None);
+                        acc.knobs.clear();
+                    }
+                    Err(e) => acc.stats.harness_errors.push(e),
+                }
+            }
         }
         acc.stats.digests.insert(g, digest);
         acc.stats.outcome_digests.insert(g, odigest);
